@@ -22,6 +22,8 @@ def work(args):
             o2 = runf(tr2)
         except Exception as e:
             tr2, o2 = tr, o
+        if o2.get("status") != "violation":
+            tr2, o2 = tr, dict(o, detail="[NOT REPRODUCED ON REPLAY] " + o["detail"])
         out.append((tr2, o2))
     res["violations"] = out
     res["digests"] = len(res["digests"])
